@@ -345,6 +345,40 @@ func genFamily(r *Rng, fam string) []byte {
 		fmt.Fprintf(&b, pick(r, opts), word(r), word(r))
 	case "list":
 		m := pick(r, []string{"-", "*", "+", "1.", "2)", "10."})
+		if rl := r.Split("list-shapes"); rl.Chance(2, 3) {
+			// lists whose outcome depends on what the list parsers remember from line to line:
+			// empty items, blank lines after them, items whose content starts on the next line,
+			// second paragraphs, continuation lines at several indents, nested lists, marker changes
+			ind := strings.Repeat(" ", len(m)+1)
+			for i := rl.Range(2, 6); i > 0; i-- {
+				switch rl.Intn(9) {
+				case 0:
+					fmt.Fprintf(&b, "%s\n", m) // empty item
+				case 1:
+					fmt.Fprintf(&b, "%s\n\n", m) // empty item followed by a blank line
+				case 2:
+					fmt.Fprintf(&b, "%s\n%s%s\n", m, ind, word(rl)) // content starts on the next line
+				case 3:
+					fmt.Fprintf(&b, "%s %s\n\n%s%s\n", m, word(rl), ind, word(rl)) // second paragraph
+				case 4:
+					fmt.Fprintf(&b, "%s %s\n%s%s sub\n", m, word(rl), ind, pick(rl, []string{"-", "*", "1."}))
+				case 5:
+					fmt.Fprintf(&b, "%s %s\n\n", m, word(rl)) // loose
+				case 6:
+					fmt.Fprintf(&b, "%s %s\n%s%s\n", m, word(rl), strings.Repeat(" ", rl.Intn(7)), word(rl)) // continuation / lazy line
+				case 7:
+					m = pick(rl, []string{"-", "*", "+", "1.", "2)", "10."}) // marker change: a new list
+					ind = strings.Repeat(" ", len(m)+1)
+					fmt.Fprintf(&b, "%s %s\n", m, word(rl))
+				default:
+					fmt.Fprintf(&b, "%s %s\n", m, word(rl))
+				}
+			}
+			if rl.Chance(1, 2) {
+				fmt.Fprintf(&b, "\n%s%s\n", strings.Repeat(" ", rl.Intn(6)), word(rl))
+			}
+			break
+		}
 		fmt.Fprintf(&b, "%s %s\n%s %s\n\n%s   %s\n%s %s\n  - sub\n", m, word(r), m, word(r), strings.Repeat(" ", len(m)), word(r), m, word(r))
 	case "quote":
 		fmt.Fprintf(&b, "> %s\n> > %s\nlazy %s\n\n> - %s\n", word(r), word(r), word(r), word(r))
@@ -557,6 +591,23 @@ func genHeadingDoc(r *Rng) []byte {
 			// suffixed ids (generated "t-10" meets written "t 10")
 			t := pick(rs, []string{"a", "step", "heading", "x y", "日本 a"})
 			pool = []string{t, t, t, t, t, t, t + " 10", t + "-11", t + " 1", t + "-12-1", t + " 9"}
+		}
+	}
+	if rs := r.Split("many-same"); rs.Chance(1, 40) {
+		// one text a hundred times and more (suffixes reach three digits, any bounded probing
+		// runs out), together with LITERAL headings that slug to ids the probing will reach
+		t := pick(rs, []string{"a", "step", "x y", "日本 a", "!!!", ""})
+		n = rs.Range(95, 230)
+		pool = []string{t}
+		for i := rs.Range(8, 30); i > 0; i-- {
+			pool = append(pool, t)
+		}
+		for i := rs.Range(1, 4); i > 0; i-- {
+			base := t
+			if strings.TrimSpace(t) == "" || t == "!!!" {
+				base = "heading"
+			}
+			pool = append(pool, fmt.Sprintf("%s%s%d", base, pick(rs, []string{"-", " "}), rs.Range(90, n+4)))
 		}
 	}
 	if r.Chance(1, 5) {
@@ -789,6 +840,49 @@ func sameShape(r *Rng, d []byte, interior bool) []byte {
 	return out
 }
 
+// nearMiss: d with one piece of white space inserted or removed where it matters most: inside
+// or next to a run of punctuation (a delimiter row, a fence, a thematic break, a Setext
+// underline, an emphasis run, a list marker, a link reference colon). The result is usually a
+// different construct, or none, that anything keyed by the text "without its white space"
+// confuses with d.
+func nearMiss(r *Rng, d []byte) []byte {
+	if len(d) < 2 {
+		return d
+	}
+	isP := func(c byte) bool { return strings.IndexByte("-=*_`~:|#>[]()+.!<", c) >= 0 }
+	var cand []int // positions i: insert before d[i]
+	var ws []int   // positions of a blank next to punctuation (to delete)
+	for i := 1; i < len(d); i++ {
+		if isP(d[i]) && isP(d[i-1]) {
+			cand = append(cand, i)
+		}
+		if (d[i] == ' ' || d[i] == '\t') && (isP(d[i-1]) || i+1 < len(d) && isP(d[i+1])) {
+			ws = append(ws, i)
+		}
+	}
+	out := append([]byte{}, d...)
+	for k := r.Range(1, 2); k > 0; k-- {
+		switch {
+		case len(cand) > 0 && r.Chance(3, 5):
+			i := cand[r.Intn(len(cand))]
+			if i > len(out) {
+				continue
+			}
+			out = append(out[:i], append([]byte{pick(r, []byte{' ', ' ', '\t'})}, out[i:]...)...)
+		case len(ws) > 0 && r.Chance(1, 2):
+			i := ws[r.Intn(len(ws))]
+			if i >= len(out) {
+				continue
+			}
+			out = append(out[:i], out[i+1:]...)
+		default:
+			i := r.Intn(len(out))
+			out = append(out[:i], append([]byte{' '}, out[i:]...)...)
+		}
+	}
+	return out
+}
+
 // genComposite: one document made of k different construct families. Used where a single
 // conversion should touch as many corners of the library as possible (a process's very first
 // conversions: everything initialised lazily at package level is first used there).
@@ -835,6 +929,7 @@ func biasConfig(r *Rng, c Config, fam string) Config {
 	case "typo":
 		c.Typographer = true
 		c.TypoSubs = r.Chance(1, 3)
+		c.TypoAll = c.TypoSubs && r.Split("typo-all").Chance(1, 2)
 	case "heading":
 		c.AutoID = true
 	case "attr":
